@@ -57,6 +57,12 @@ def run(rep, tier):
     c17.cached_fields(al, F)
     from . import dims
     dims.run(rep, F, "R1.13")
+    # relate locates isolated components and incomplete star labels with coordinate_position, and takes its disjoint shortcut on bounding_rect:
+    # the point-location kernels and the bounding-box tables (shared with C02 / C19)
+    from . import c02_kernels, c02_linear, c19
+    c02_kernels.run(rep, F, tier, only={"Rect.position", "Triangle.position", "Line.position", "ring-step", "polygon-composition"}, rule="R1.14")
+    c02_linear.run(rep, F, tier, rule="R1.14")
+    c19.bbox_tables(rep, F, rule="R1.15")
     from . import c01_state
     c01_state.topology_position(rep, F)
     c01_state.label(rep, F)
